@@ -20,9 +20,17 @@ use std::io::Write;
 use std::ops::Range;
 use std::pin::Pin;
 use std::task::Poll;
-use std::time::SystemTime;
+use std::time::{Duration, SystemTime, UNIX_EPOCH};
 
 const MAX_DECIMAL_U64_BYTES: usize = 20; // u64::max_value().to_string().len()
+
+/// Truncates to whole seconds, the resolution of an HTTP-date (and of the `Last-Modified` sent).
+fn trunc_to_secs(t: SystemTime) -> SystemTime {
+    match t.duration_since(UNIX_EPOCH) {
+        Ok(d) => UNIX_EPOCH + Duration::from_secs(d.as_secs()),
+        Err(_) => t,
+    }
+}
 
 fn parse_modified_hdrs(
     etag: &Option<HeaderValue>,
@@ -35,7 +43,7 @@ fn parse_modified_hdrs(
         (last_modified, req_hdrs.get(header::IF_UNMODIFIED_SINCE))
     {
         const ERR: &str = "Unparseable If-Unmodified-Since";
-        *m > parse_http_date(since.to_str().map_err(|_| ERR)?).map_err(|_| ERR)?
+        trunc_to_secs(*m) > parse_http_date(since.to_str().map_err(|_| ERR)?).map_err(|_| ERR)?
     } else {
         false
     };
@@ -56,7 +64,8 @@ fn parse_modified_hdrs(
                 (last_modified, req_hdrs.get(header::IF_MODIFIED_SINCE))
             {
                 const ERR: &str = "Unparseable If-Modified-Since";
-                *m <= parse_http_date(since.to_str().map_err(|_| ERR)?).map_err(|_| ERR)?
+                trunc_to_secs(*m)
+                    <= parse_http_date(since.to_str().map_err(|_| ERR)?).map_err(|_| ERR)?
             } else {
                 false
             }
